@@ -36,6 +36,8 @@ CHECKS = {
                 note='weak fit (DESIGN.md section 0); the agent cell counts as a chain link whatever it holds; non-interference judged for the deterministic functions only'),
     'C15': dict(engine='sim', design='5/C15', technique='deterministic simulation: seeded histories (corner walks, pick/drop/swap, door and box opening) over declared spaces with member worlds using every declared type/status/colour and over shipped configurations; after every step all three representations of state and observation are checked key by key against the declared space and the gym space',
                 note='trusted: own shape/dtype/bounds check; member worlds use only declared types and colours; views have their origin inside'),
+    'C17': dict(engine='configsim', design='5/C17', technique='deterministic simulation with fault injection on the configuration input: every shipped file built by the real factory and by an independent interpreter of the data (M-config) with digest-equal seeded histories; data-level corruption and text-level corruption (truncation, line loss / duplication, byte flips) served through an in-memory file behind open; classified corruptions must be rejected with SchemaError/ValueError, buildable ones must behave as described',
+                note='trusted: M-config (own reading of names, reserved keys and signatures); unparsable text may raise anything; damage outside the statement\'s list is undecided (counted)'),
     'C19': dict(engine='raysim', design='5/C19', technique='deterministic simulation with cache faults: seeded query histories over compute_ray / compute_rays / compute_rays_fancy and cached variants (offset areas included) interleaved with visibility calls, cache clearing and foreign queries between a query and its repeat; per-ray path invariants, fan coverage, repeat equality, cached-vs-recomputed equality',
                 note='the geometric clauses are pure; the simulator contributes query history and cache faults'),
     'C08': dict(engine='sim', design='5/C08', technique='deterministic simulation: seeded op schedules over free-form worlds and shipped configurations, per-component and per-step refinement of the agent pose against a reference model, history invariant',
@@ -51,6 +53,7 @@ NOT_APPLICABLE = [
 ]
 
 ENGINES = {
+    'configsim': ('gvsim/props/c17.py', 'configuration runner: real YAML factory vs M-config, corruption faults on data and text'),
     'viewsim': ('gvsim/views.py', 'walking client + real observation / visibility functions against the reference view geometry; hidden-state corruption faults'),
     'raysim': ('gvsim/props/c19.py', 'ray query client + visibility client + cache adversary'),
     'resetsim': ('gvsim/resets.py', 'case runner for the eight built-in reset functions with owned generators (real seeded / ScriptedRng), validator, model planner and real-step search'),
